@@ -182,6 +182,55 @@ func vexpDup() []vexp {
 	}
 }
 
+// a diamond: the same struct type is embedded through two different paths
+type VAudit struct {
+	Rev  int32
+	Note string
+}
+type VHead struct {
+	Kind int8
+	VAudit
+}
+type VBody struct {
+	VAudit
+	Text string
+}
+type VDoc struct {
+	VHead
+	Title string
+	VBody
+}
+
+func vexpDoc() []vexp {
+	var x VDoc
+	oh := int(unsafe.Offsetof(x.VHead))
+	oha := oh + int(unsafe.Offsetof(x.VHead.VAudit))
+	ob := int(unsafe.Offsetof(x.VBody))
+	oba := ob + int(unsafe.Offsetof(x.VBody.VAudit))
+	return []vexp{
+		{"VHead", "VHead", rt[VHead](), rt[VHead](), oh, true},
+		{"Kind", "Kind", rt[int8](), rt[int8](), oh + int(unsafe.Offsetof(x.VHead.Kind)), false},
+		{"VAudit", "VAudit", rt[VAudit](), rt[VAudit](), oha, true},
+		{"Rev", "Rev", rt[int32](), rt[int32](), oha + int(unsafe.Offsetof(x.VHead.VAudit.Rev)), false},
+		{"Note", "Note", rt[string](), rt[string](), oha + int(unsafe.Offsetof(x.VHead.VAudit.Note)), false},
+		{"Title", "Title", rt[string](), rt[string](), int(unsafe.Offsetof(x.Title)), false},
+		{"VBody", "VBody", rt[VBody](), rt[VBody](), ob, true},
+		{"VAudit", "VAudit", rt[VAudit](), rt[VAudit](), oba, true},
+		{"Rev", "Rev", rt[int32](), rt[int32](), oba + int(unsafe.Offsetof(x.VBody.VAudit.Rev)), false},
+		{"Note", "Note", rt[string](), rt[string](), oba + int(unsafe.Offsetof(x.VBody.VAudit.Note)), false},
+		{"Text", "Text", rt[string](), rt[string](), ob + int(unsafe.Offsetof(x.VBody.Text)), false},
+	}
+}
+
+func VListDoc() {
+	e := vexpDoc()
+	seq := vcheckListing[VDoc](e)
+	vforType[VDoc, int32](seq, e, "fortype.int32")
+	vforType[VDoc, string](seq, e, "fortype.string")
+	vforType[VDoc, VAudit](seq, e, "fortype.audit")
+	vrt.Cover("doc.done")
+}
+
 func vexpZero() []vexp {
 	var x VZero
 	return []vexp{
